@@ -146,7 +146,9 @@ def tlc(ctx, module, cfg=None, workers=None, timeout=600, extra=(), files=(), si
         raise NoVerdict("TLC could not run %s/%s:\n%s" % (module, cfg, tail(txt)))
     viol = ("is violated" in txt or "Error: Deadlock reached" in txt or "was violated" in txt
             or "Error: Evaluating" in txt or "TLC threw an unexpected exception" in txt
-            or "Error: The " in txt or "Error: In evaluation" in txt)
+            or "Error: The " in txt or "Error: In evaluation" in txt
+            or ("Error: Postcondition" in txt and "is false" in txt))
+    info["postcondition_failed"] = "Error: Postcondition" in txt
     info["violated"] = viol
     if viol and not allow_violation:
         raise NoVerdict("specification %s/%s violates its own property (spec broken):\n%s"
